@@ -170,7 +170,7 @@ u32 vf_ptr_in_object(const void *p, const void *obj, u64 objsize) {
 }
 u32 vf_ptr_eq(const void *a, const void *b) { return a == b; }
 
-u32 vf_max_size_value = 0;
+u64 vf_max_size_value = 0;
 
 /* ------------------------------------------------------------------ fault injection */
 static u32 vf_f_mask = 0, vf_f_at1 = 0, vf_f_at2 = 0, vf_f_ctr = 0, vf_f_fired = 0;
@@ -257,7 +257,7 @@ struct vf_tr_generic { u32 val, st, touch; };
  * One stream of `len` positions. An input iterator copy records the cursor value at which it
  * was created/advanced (its snapshot). strict=1 (input category): using a copy whose snapshot
  * is not the current cursor is a violation; strict=0 (forward): only end-overrun is checked. */
-#define VF_SMAX 8
+#define VF_SMAX 6
 static u32 vf_s_len = 0, vf_s_cur = 0, vf_s_deref[VF_SMAX + 1], vf_s_inc[VF_SMAX + 1];
 void vf_stream_init(u32 len) { vf_s_len = len; vf_s_cur = 0; for (int i = 0; i <= VF_SMAX; i++) vf_s_deref[i] = vf_s_inc[i] = 0; }
 u32 vf_stream_cursor(void) { return vf_s_cur; }
